@@ -285,8 +285,9 @@ def vm_cross_check(pid, mod, pairs):
 # implementation / model runners
 # --------------------------------------------------------------------------
 
-class CaseTimeout(Exception):
-    pass
+class CaseTimeout(BaseException):
+    """raised by the per-case alarm.  A BaseException: the framework's catch-alls (`except Exception` in wsgi(),
+    _handle(), MultipartMarkup.parse) must not be able to swallow it and carry on looping"""
 
 
 def _alarm(signum, frame):
@@ -295,10 +296,13 @@ def _alarm(signum, frame):
 
 HANGS = [0]          # cases on which the implementation did not return in time, this run
 HANG_STOP = 5        # after that many, the remaining cases are not run (a hanging tree must not cost hours)
+POISONED = [False]   # a worker thread was abandoned while still running: it may hold locks; no further case is run
+BEAT = [time.time(), None]      # heartbeat for the watchdog: time of the last case start, the case
 
 
 CALLS = [0]
 THREAD_EVERY = 4     # every 4th case is served on a fresh worker thread instead of the importing (main) thread
+WATCHDOG_LIMIT = 900 # seconds without a case finishing before the run is given up (last resort, see _watchdog)
 
 
 def _in_worker(mod, case):
@@ -314,28 +318,65 @@ def _in_worker(mod, case):
             box['e'] = e
     t = threading.Thread(target=work, daemon=True)
     t.start()
-    t.join()
+    try:
+        t.join()
+    except CaseTimeout:
+        # the thread cannot be stopped and may hold locks of the harness or of the framework for ever
+        POISONED[0] = True
+        raise
     if 'e' in box:
         raise box['e']
     return box.get('r')
 
 
+def _watchdog(rid):
+    """last resort against a run that neither returns nor can be interrupted (a main thread blocked on a lock an
+    abandoned thread holds, a loop in C code): when no case finishes for WATCHDOG_LIMIT seconds the case in flight is
+    written as the replay, the violation is reported and the process ends.  Never reached on a tree that answers."""
+    import threading
+
+    def watch():
+        while True:
+            time.sleep(5)
+            if BEAT[1] is not None and time.time() - BEAT[0] > WATCHDOG_LIMIT:
+                try:
+                    p = write_replay(rid, dict(property=rid, case=BEAT[1], impl={'hang': True},
+                                               oracle='the implementation did not return on this input (no answer for '
+                                                      '%d s; the run could not be continued)' % WATCHDOG_LIMIT))
+                    sys.stdout.write('VIOLATION property=%s replay=%s\n' % (rid, p))
+                    sys.stdout.flush()
+                finally:
+                    os._exit(1)
+    threading.Thread(target=watch, daemon=True).start()
+
+
 def run_impl_guarded(mod, case, limit=20):
+    if POISONED[0]:
+        return {'hang': True, 'not_run': 'an earlier case is still running on an abandoned thread'}
     signal.signal(signal.SIGALRM, _alarm)
-    signal.alarm(limit if HANGS[0] == 0 else 4)     # once one case has hung, do not wait 20 s for each of the next
+    # repeating: should one CaseTimeout be swallowed (a bare `except:`, a `finally` that loops), the next one follows
+    signal.setitimer(signal.ITIMER_REAL, limit if HANGS[0] == 0 else 4, 1.0)
     CALLS[0] += 1
+    BEAT[0], BEAT[1] = time.time(), case
     try:
-        if CALLS[0] % THREAD_EVERY == 0 and not getattr(mod, 'MAIN_THREAD_ONLY', False) \
-                and os.environ.get('VERIF_NO_WORKER') != '1':
-            return _in_worker(mod, case)
-        return mod.run_impl(case)
-    except CaseTimeout:
+        try:
+            if CALLS[0] % THREAD_EVERY == 0 and not getattr(mod, 'MAIN_THREAD_ONLY', False) \
+                    and os.environ.get('VERIF_NO_WORKER') != '1':
+                return _in_worker(mod, case)
+            return mod.run_impl(case)
+        except CaseTimeout:
+            HANGS[0] += 1
+            return {'hang': True}
+        except Exception as e:  # the harness itself must not die on an unexpected escape
+            return {'escaped': type(e).__name__, 'msg': str(e)[:200]}
+        finally:
+            signal.setitimer(signal.ITIMER_REAL, 0)
+            BEAT[1] = None
+    except CaseTimeout:         # a tick of the repeating timer that arrived while the handlers above were running
+        signal.setitimer(signal.ITIMER_REAL, 0)
+        BEAT[1] = None
         HANGS[0] += 1
         return {'hang': True}
-    except Exception as e:  # the harness itself must not die on an unexpected escape
-        return {'escaped': type(e).__name__, 'msg': str(e)[:200]}
-    finally:
-        signal.alarm(0)
 
 
 def run_model(exe, encoded):
@@ -432,8 +473,9 @@ def evaluate(mod, exe, cases, model_ok):
     """returns (records, driver_error). record = dict(case, impl, model, agree, fail)"""
     recs = []
     for c in cases:
-        if HANGS[0] >= HANG_STOP:
-            log('the implementation hung on %d cases: the remaining %d cases are not run' % (HANGS[0], len(cases) - len(recs)))
+        if HANGS[0] >= HANG_STOP or POISONED[0]:
+            log('the implementation hung on %d cases%s: the remaining %d cases are not run'
+                % (HANGS[0], ' (one on a worker thread that cannot be stopped)' if POISONED[0] else '', len(cases) - len(recs)))
             break
         obs = run_impl_guarded(mod, c)
         recs.append(dict(case=c, impl=obs, model=None, agree=None, fail=None, enc=None, raw=None))
@@ -459,7 +501,9 @@ def evaluate(mod, exe, cases, model_ok):
             r['fail'] = mod.oracle(r['case'], r['impl'])
         except Exception as ex:
             r['fail'] = 'oracle crashed: %s: %s' % (type(ex).__name__, ex)
-        if not r['fail'] and isinstance(r['impl'], dict) and r['impl'].get('hang') is True and len(r['impl']) == 1:
+        if isinstance(r['impl'], dict) and r['impl'].get('not_run'):
+            r['fail'] = None            # not an observation of this input
+        elif not r['fail'] and isinstance(r['impl'], dict) and r['impl'].get('hang') is True and len(r['impl']) == 1:
             # no answer at all: whatever the property says about this input cannot hold
             r['fail'] = 'the implementation did not return on this input within the time limit (hang)'
     return recs, derr
@@ -480,6 +524,7 @@ def main():
     rid = getattr(mod, 'PROPERTY', pid)   # id used in VIOLATION / KNOWN-FINDING lines (sub-checks report their property)
     rng = random.Random('%s/%s' % (seed, pid))
     findings = load_findings(pid)
+    _watchdog(rid)
 
     if args.replay:
         with open(args.replay) as f:
@@ -575,8 +620,12 @@ def main():
         for c in extra:
             if time.time() - t_search > (600 if args.tier == 'thorough' else 150):
                 break
+            if POISONED[0]:
+                break
             searched += 1
             obs = run_impl_guarded(mod, c)
+            if isinstance(obs, dict) and obs.get('not_run'):
+                break
             f = mod.oracle(c, obs)
             if f:
                 failures.append(dict(case=c, impl=obs, model=None, agree=None, fail=f))
@@ -616,11 +665,24 @@ def main():
 
             def still(c, _sig=sig):
                 o = run_impl_guarded(mod, c)
+                if isinstance(o, dict) and o.get('not_run'):
+                    return False
                 f = mod.oracle(c, o)
+                if not f and isinstance(o, dict) and o.get('hang') is True and len(o) == 1:
+                    f = 'hang'
                 return bool(f) and match_finding(mod, findings, c, f) is None
-            small = shrink_case(mod, r['case'], still)
-            obs = run_impl_guarded(mod, small)
-            p = write_replay(pid, dict(property=pid, case=small, impl=obs, oracle=mod.oracle(small, obs),
+            if POISONED[0]:
+                small, obs, orc = r['case'], r['impl'], r['fail']
+            else:
+                small = shrink_case(mod, r['case'], still)
+                obs = run_impl_guarded(mod, small)
+                orc = None if (isinstance(obs, dict) and obs.get('not_run')) else mod.oracle(small, obs)
+                if not orc and isinstance(obs, dict) and obs.get('hang') is True and len(obs) == 1:
+                    orc = 'the implementation did not return on this input within the time limit (hang)'
+                if not orc:
+                    # the re-run did not show the failure again (or could not be made): report what was observed
+                    small, obs, orc = r['case'], r['impl'], r['fail']
+            p = write_replay(pid, dict(property=pid, case=small, impl=obs, oracle=orc, first_complaint=r['fail'],
                                        seed=seed, tier=args.tier,
                                        broken=cb['errors'][:3], original_case=r['case']))
             lines.append('VIOLATION property=%s replay=%s' % (rid, p))
